@@ -12,6 +12,7 @@ import (
 	"github.com/vicanso/pike/config"
 	"github.com/vicanso/pike/location"
 	"github.com/vicanso/pike/server"
+	"github.com/vicanso/pike/upstream"
 
 	"pikeverif/world"
 )
@@ -76,6 +77,10 @@ func Routing(w *world.World, raws []json.RawMessage) ([]interface{}, error) {
 		return world.Outcome{Kind: "uncacheable"}
 	}
 	defer location.Reset([]config.LocationConfig{{Name: "loc", Upstream: "up"}})
+	// end to end, the locations named n2 forward to an upstream none of whose servers is healthy (a port nobody listens on)
+	upstream.ResetWithOnStats([]config.UpstreamConfig{{Name: "up", Servers: []config.UpstreamServerConfig{{Addr: w.UpAddr}}},
+		{Name: "updown", Servers: []config.UpstreamServerConfig{{Addr: fmt.Sprintf("http://127.0.0.1:%d", freePort())}}}}, nil)
+	defer upstream.ResetWithOnStats([]config.UpstreamConfig{{Name: "up", Servers: []config.UpstreamServerConfig{{Addr: w.UpAddr}}}}, nil)
 	var out []interface{}
 	for ci, raw := range raws {
 		var c rtCase
@@ -193,7 +198,11 @@ func Routing(w *world.World, raws []json.RawMessage) ([]interface{}, error) {
 		// end to end for a sample of the queries
 		var lcs []config.LocationConfig
 		for i, l := range c.Cfg {
-			lcs = append(lcs, config.LocationConfig{Name: l.Name, Upstream: "up", Hosts: l.Hosts, Prefixes: l.Prefixes,
+			up := "up"
+			if l.Name == "n2" {
+				up = "updown"
+			}
+			lcs = append(lcs, config.LocationConfig{Name: l.Name, Upstream: up, Hosts: l.Hosts, Prefixes: l.Prefixes,
 				ReqHeaders: []string{"X-Loc:" + strconv.Itoa(i+1)}})
 		}
 		location.Reset(lcs)
